@@ -345,3 +345,8 @@ def run(ctx: Ctx, rep: Report, tier: str):
     h8(ctx, rep)
     h9(ctx, rep)
     section(rep, lambda: h10_h11(ctx, rep))
+    from rules.decisions import decision_table, table_sites
+    rep.rule("C19.DT", "decision table (rules/decisions.json) of the hierarchical cache: for every function and every action shape (an impure call with the parameters it passes, a store to an "
+             "attribute or item, a delete, a returned constant, a yield, a raise) the set of states - over the function's guard atoms - in which the action is taken "
+             "equals the recorded one; compared as canonical decision diagrams, so any equivalent respelling of the guards is the same table", table_sites("C19"))
+    section(rep, lambda: decision_table(ctx, rep, "C19.DT", "C19"))
